@@ -53,3 +53,17 @@ Proof. vm_compute. reflexivity. Qed.
 Lemma C02_list_of_enum_refused :
   echo ser_id deser_id true (TList (TEnum [[82;69;68]%N])) (VList [VEnum [82;69;68]%N]) = Reject.
 Proof. vm_compute. reflexivity. Qed.
+
+(* 7. the optional marker INSIDE an Annotated wrapper,  Annotated[X | None, meta]:  _is_optional_type does not look
+      through Annotated, so the parameter is not optional (None is refused) and _deserialize_value, which strips
+      Optional first and Annotated second, is left with the Union and converts nothing back: an Enum member
+      arrives as its name, a dict as a list of pairs.  (Annotated[X, meta] | None is handled: P_C02.ex_spellings.) *)
+Lemma C02_optional_inside_annotated_refuted :
+  let e := TEnum [[82;69;68]%N] in
+  has_type (TAnn (TOpt e)) (VEnum [82;69;68]%N) = true /\
+  pp (TAnn (TOpt e)) (VEnum [82;69;68]%N) = Accept (VStr [82;69;68]%N) /\
+  has_type (TAnn (TOpt e)) VNone = true /\
+  pp (TAnn (TOpt e)) VNone = Reject /\
+  pp (TAnn (TOpt (TMap TStr (TInt true 64)))) (VDict [(VStr [97%N], VInt 1)]) = Accept (VList [VTuple [VStr [97%N]; VInt 1]]) /\
+  supported (TAnn (TOpt e)) = false.
+Proof. vm_compute. repeat split; reflexivity. Qed.
